@@ -210,7 +210,7 @@ class ReleasedCacheNative(Contract):
     has_native = True
     native_shards = 4
     props = ("C07",)
-    bounded_scope = "file-backed 5-vertex curves (6 cell lists incl. a closed ring and a triangle) and surfaces (2) and a point cloud with vertex/cell data; parts read or not before the operation; remove_vertices / remove_cells with 4 index sets, or no removal at all (release through clear_array_attributes or through copy(clear_cache=True)); state compared right after the operation, after clear_array_attributes(recursive) and after re-opening the file"
+    bounded_scope = "file-backed 5-vertex curves (6 cell lists incl. a closed ring and a triangle) and surfaces (2) and a point cloud with vertex/cell data; parts read or not before the operation; remove_vertices / remove_cells with 4 index sets, or no removal at all (release through clear_array_attributes or through copy(clear_cache=True)); an object and its copy, one of them losing vertices (the other must not notice); state compared right after the operation, after clear_array_attributes(recursive) and after re-opening the file"
 
     def native_cases(self, tier, rng):
         geoms = {"points": [None], "curve": [[[0, 1], [1, 2], [2, 3], [3, 4]], [[0, 1], [2, 3]], [[3, 4], [0, 1]], [[0, 1], [1, 2], [3, 4]], [[0, 1], [1, 2], [2, 3], [3, 4], [4, 0]], [[0, 1], [1, 2], [0, 2], [3, 4]]],
@@ -221,6 +221,13 @@ class ReleasedCacheNative(Contract):
                 for how in ("clear", "copy-clear_cache"):
                     for parts_read in ((False, True) if kind == "curve" else (False,)):
                         yield {"kind": kind, "n": 5, "cells": cells, "op": "none", "indices": [], "parts_read": parts_read, "how": how}
+        # an object and its copy are two objects: removing from one (also vertices no cell uses) leaves the other as it was
+        twins = {"curve": [[[0, 2], [2, 3], [3, 4]], [[0, 1], [1, 2], [2, 3], [3, 4]]], "surface": [[[0, 2, 3], [3, 4, 0]], [[0, 1, 2], [2, 3, 4]]], "points": [None]}
+        for kind, cl in twins.items():
+            for cells in cl:
+                for idx in ([1], [0], [4], [1, 4]):
+                    for who in ("source", "copy"):
+                        yield {"kind": kind, "n": 5, "cells": cells, "op": "remove_vertices", "indices": idx, "parts_read": False, "how": "twin", "who": who}
         for kind, cl in geoms.items():
             for cells in cl:
                 for op in ("remove_vertices", "remove_cells"):
@@ -257,6 +264,19 @@ class ReleasedCacheNative(Contract):
                 uid = obj.uid
                 if case["parts_read"]:
                     obj.parts  # materialise the derived cache
+                if case.get("how") == "twin":
+                    state0 = lambda o: {k: (None if v is None else np.atleast_1d(v)) for k, v in _state(o).items()}
+                    twin = obj.copy()
+                    actor, bystander = (obj, twin) if case["who"] == "source" else (twin, obj)
+                    before = state0(bystander)
+                    try:
+                        actor.remove_vertices(list(case["indices"]))
+                    except Exception:
+                        pass  # a refusal must leave the bystander alone just as well
+                    bad = same(before, state0(bystander)) or _consistent(bystander) or _consistent(actor)
+                    if bad:
+                        return f"remove_vertices({case['indices']}) on the {case['who']} of a copied pair changed the other object: {bad} ({case})"
+                    return None
                 try:
                     if case["op"] != "none":
                         getattr(obj, case["op"])(list(case["indices"]))
